@@ -1428,8 +1428,8 @@ Proof.
   destruct wk; destruct d as [f fmt sers|sers|sers]; destruct sers as [|s0 sers'];
     cbn [bind] in Hw; try discriminate.
   - (* category writer, category data, no series *)
-    apply (Hnil RCat); auto.
-    destruct (has_cat_axis ptag); [destruct (write_cat false f fmt); simpl in Hw|]; congruence.
+    destruct (write_cat false f fmt) as [cx0|] eqn:Hc0; [|discriminate]. cbn [bind] in Hw.
+    apply (Hnil RCat); [exact Htag|cbn [ser_datas]; rewrite Hc0; reflexivity|congruence].
   - destruct (write_cat false f fmt) as [cx|e] eqn:Hc; [|discriminate]. cbn [bind] in Hw.
     injection Hw as <-.
     exists RCat, (map (SDCat cx) (s0 :: sers')), ptag,
@@ -1612,7 +1612,7 @@ Proof.
                     (map (map (fun il => mkPt (fst il) (xml_norm (label_str (snd il))))) (levels f))
                   = map (map (tau' tau)) (levels f)).
     { rewrite map_map. apply map_ext. intros lv. rewrite map_map. apply map_ext. intros [i l].
-      unfold tau', tau, cat_text. rewrite Hnum. reflexivity. }
+      unfold tau', tau, cat_text. rewrite Hnum, pt_label_seen. reflexivity. }
     rewrite Hlv, map_length.
     destruct D as [|[|D2]]; try lia.
     rewrite (flattened_levels tau f (S (S D2))) by auto.
@@ -1633,7 +1633,7 @@ Proof.
                     = enum_pts 0 texts).
     { rewrite EL, EI, enum_pts_seq, map_map. unfold texts. rewrite map_length, Hlen.
       apply map_ext_in. intros j Hj. apply in_seq in Hj. cbn [fst snd].
-      now rewrite (nth_map_in _ _ _ dlabel []) by lia. }
+      now rewrite (nth_map_in (fun l => xml_norm (label_str l)) (expand sg) j dlabel (@nil N)) by lia. }
     assert (Hn : Z.to_nat (leaves_f f) = length texts).
     { unfold texts. rewrite map_length, Hlen, <- ET, EN. now rewrite Nat2Z.id. }
     assert (Hsrc : cat_pts_src (mkCatx 2 None [leaves_f f] []
@@ -1648,7 +1648,7 @@ Proof.
       lia. }
     rewrite Hsrc, Hn.
     assert (Hp : map (fun path => tau (last path dlabel)) (paths_f f) = map seen_text texts).
-    { unfold texts. rewrite (expand_segs_f f (S (S D2)) (S D2)) by auto. rewrite !map_map.
+    { unfold texts, sg. rewrite (expand_segs_f f (S (S D2)) (S D2)) by auto. rewrite !map_map.
       apply map_ext_in. intros path Hpath.
       pose proof (paths_f_length f (S (S D2)) Hall) as HF. rewrite Forall_forall in HF.
       specialize (HF path Hpath). unfold tau, cat_text. rewrite Hnum. do 3 f_equal.
@@ -1665,4 +1665,756 @@ Proof.
     assert (i < length texts)%nat by (apply nth_error_Some; congruence).
     pose proof (find_last_enum texts 0 i H) as Hfl. rewrite Z.add_0_l in Hfl. rewrite Hfl.
     rewrite pt_label_seen. cbn [pt_v]. now rewrite (nth_error_nth _ _ _ Ev).
+Qed.
+
+(* ================================================================== replace_data *)
+
+Definition data_names (d : chart_data) : list str :=
+  match d with DCat _ _ s => map cs_name s | DXy s => map xs_name s | DBub s => map bs_name s end.
+(** The values series.values reports: Y values for XY and bubble data. *)
+Definition data_values (d : chart_data) : list (list (option num)) :=
+  match d with
+  | DCat _ _ s => map cs_vals s
+  | DXy s => map (fun x => map snd (xs_pts x)) s
+  | DBub s => map (fun x => map (fun p => snd (fst p)) (bs_pts x)) s
+  end.
+Definition data_xvalues (d : chart_data) : list (option (list (option num))) :=
+  match d with
+  | DCat _ _ s => map (fun _ => None) s
+  | DXy s => map (fun x => Some (map fst (xs_pts x))) s
+  | DBub s => map (fun x => Some (map (fun p => fst (fst p)) (bs_pts x))) s
+  end.
+Definition data_sizes (d : chart_data) : list (option (list (option num))) :=
+  match d with
+  | DBub s => map (fun x => Some (map snd (bs_pts x))) s
+  | _ => map (fun _ => None) (data_names d)
+  end.
+
+Definition rk_tags (rk : rkind) : list N :=
+  match rk with
+  | RCat => [tg_tx; tg_cat; tg_val]
+  | RXy => [tg_tx; tg_xVal; tg_yVal]
+  | RBub => [tg_tx; tg_xVal; tg_yVal; tg_bubbleSize]
+  end.
+
+Lemma ser_datas_facts rk b d sds : ser_datas rk b d = Ok sds ->
+  length sds = data_len d /\
+  map sd_name sds = data_names d /\ map sd_values sds = data_values d /\
+  map sd_xvalues sds = data_xvalues d /\
+  (rk = RBub \/ rk = RCat -> map sd_sizes sds = data_sizes d) /\
+  Forall (fun sd => sd_is_xy sd = rk_xy rk /\ data_tags sd = rk_tags rk) sds.
+Proof.
+  assert (Hnil : forall d, data_len d = O ->
+            0%nat = data_len d /\ @nil str = data_names d /\ @nil (list (option str)) = data_values d /\
+            @nil (option (list (option str))) = data_xvalues d /\ @nil (option (list (option str))) = data_sizes d).
+  { intros [f fmt [|]|[|]|[|]]; simpl; intros; try discriminate; repeat split. }
+  destruct rk, d as [f fmt sers|sers|sers]; cbn [ser_datas];
+    try (destruct (data_len _) eqn:El; [|discriminate]; intros H; injection H as <-;
+         destruct (Hnil _ El) as [A [B [C [D E]]]]; simpl;
+         repeat split; auto; constructor).
+  - destruct (write_cat b f fmt) as [cx|]; [|discriminate]. cbn [bind]. intros H; injection H as <-.
+    cbn [data_len data_names data_values data_xvalues data_sizes].
+    rewrite map_length, !map_map. repeat split; auto.
+    apply Forall_forall. intros sd Hsd. apply in_map_iff in Hsd. destruct Hsd as [x [<- _]]. auto.
+  - intros H; injection H as <-. rewrite map_length, !map_map. repeat split; auto.
+    + intros [E|E]; discriminate.
+    + apply Forall_forall. intros sd Hsd. apply in_map_iff in Hsd. destruct Hsd as [x [<- _]]. auto.
+  - intros H; injection H as <-. rewrite map_length, !map_map. repeat split; auto.
+    + intros [E|E]; discriminate.
+    + apply Forall_forall. intros sd Hsd. apply in_map_iff in Hsd. destruct Hsd as [x [<- _]]. auto.
+  - intros H; injection H as <-. rewrite map_length, !map_map. repeat split; auto.
+    apply Forall_forall. intros sd Hsd. apply in_map_iff in Hsd. destruct Hsd as [x [<- _]]. auto.
+Qed.
+
+Lemma zip_rw_reflects sc l : forall ds, length l = length ds -> Forall2 reflects (zip_rw sc l ds) ds.
+Proof.
+  induction l as [|s l IH]; intros [|d ds] Hl; simpl in *; try discriminate; constructor.
+  - apply rewrite_reflects.
+  - apply IH. lia.
+Qed.
+
+(** Each rewritten series keeps idx, order and every child that is not a data child. *)
+Lemma zip_rw_keeps sc tags l : forall ds, Forall (fun sd => data_tags sd = tags) ds ->
+  Forall2 (fun s' s => s_idx s' = s_idx s /\ s_order s' = s_order s /\
+                       other_kids tags (s_kids s') = other_kids tags (s_kids s))
+          (zip_rw sc l ds) l.
+Proof.
+  assert (Hid : forall l : list ser, Forall2 (fun s' s => s_idx s' = s_idx s /\ s_order s' = s_order s /\
+                       other_kids tags (s_kids s') = other_kids tags (s_kids s)) l l).
+  { intros l0. induction l0; constructor; auto. }
+  induction l as [|s l IH]; intros [|d ds] Hf; simpl.
+  - constructor.
+  - constructor.
+  - apply Hid.
+  - inversion Hf; subst. destruct (rewrite_others sc s d) as [A [B C]]. constructor; auto.
+Qed.
+
+Theorem replace_spec sc d c c' : replace sc d c = Ok c' ->
+  exists rk ps sds,
+    rewriter_kind c = Ok rk /\ adjust (ch_plots c) (data_len d) = Ok ps /\
+    ser_datas rk (ch_1904 c) d = Ok sds /\
+    length (area_sers_of ps) = length sds /\
+    ch_1904 c' = ch_1904 c /\ ch_rest c' = ch_rest c /\
+    ch_plots c' = rewrite_plots sc sds ps /\
+    area_sers c' = zip_rw sc (area_sers_of ps) sds.
+Proof.
+  unfold replace. destruct (rewriter_kind c) as [rk|] eqn:Hk; [|discriminate]. cbn [bind].
+  destruct (adjust (ch_plots c) (data_len d)) as [ps|] eqn:Ha; [|discriminate]. cbn [bind].
+  destruct (ser_datas rk (ch_1904 c) d) as [sds|] eqn:Hs; [|discriminate]. cbn [bind].
+  intros H; injection H as <-. exists rk, ps, sds.
+  destruct (adjust_spec _ _ _ Ha) as [Hlen _].
+  destruct (ser_datas_facts _ _ _ _ Hs) as [Hl _].
+  repeat split; auto; try congruence.
+  unfold area_sers. cbn [ch_plots]. apply area_rewrite_plots.
+Qed.
+
+Lemma Forall2_map_eq {A B C} (R : A -> B -> Prop) (g : A -> C) (h : B -> C) l1 l2 :
+  Forall2 R l1 l2 -> (forall a b, R a b -> g a = h b) -> map g l1 = map h l2.
+Proof. induction 1; intros Hgh; simpl; auto. f_equal; auto. Qed.
+
+Lemma Forall2_Forall_r {A B} (R : A -> B -> Prop) (P : B -> Prop) l1 l2 :
+  Forall2 R l1 l2 -> Forall P l2 -> Forall2 (fun a b => R a b /\ P b) l1 l2.
+Proof. induction 1; intros HP; inversion HP; subst; constructor; auto. Qed.
+
+Lemma Forall2_in_l {A B} (R : A -> B -> Prop) l1 l2 a :
+  Forall2 R l1 l2 -> In a l1 -> exists b, In b l2 /\ R a b.
+Proof.
+  induction 1; intros Ha; [destruct Ha|]. destruct Ha as [<-|Ha].
+  - eexists; split; [now left|eauto].
+  - destruct (IHForall2 Ha) as [b [Hb Hr]]. exists b. split; [now right|auto].
+Qed.
+
+(* ---- what the read API reports for a whole chart ---- *)
+Definition chart_names (c : chart) : list str := map ser_name (area_sers c).
+Definition chart_values (c : chart) : list (list (option str)) :=
+  concat (map (fun p => map (ser_values_raw (p_tag p)) (plot_sers p)) (ch_plots c)).
+Definition chart_xvalues (c : chart) := map (ser_cache kid_xval) (area_sers c).
+Definition chart_sizes (c : chart) := map (ser_cache kid_bub) (area_sers c).
+
+(** Every plot is of the kind (XY-like or category-like) of the first one. *)
+Definition homog (ps : list plot) : Prop :=
+  forall p, In p ps -> is_xy_plot (p_tag p) = match ps with p0 :: _ => is_xy_plot (p_tag p0) | [] => false end.
+
+Lemma ser_values_raw_flag t1 t2 s : is_xy_plot t1 = is_xy_plot t2 -> ser_values_raw t1 s = ser_values_raw t2 s.
+Proof. intros H. unfold ser_values_raw. now rewrite H. Qed.
+
+Lemma chart_values_flag (ps : list plot) t :
+  (forall p, In p ps -> is_xy_plot (p_tag p) = is_xy_plot t) ->
+  concat (map (fun p => map (ser_values_raw (p_tag p)) (plot_sers p)) ps)
+  = map (ser_values_raw t) (area_sers_of ps).
+Proof.
+  intros H. induction ps as [|p ps IH]; [reflexivity|]. simpl.
+  change (area_sers_of (p :: ps)) with (plot_sers p ++ area_sers_of ps).
+  rewrite map_app, IH by (intros q Hq; apply H; now right). f_equal.
+  apply map_ext. intros s. apply ser_values_raw_flag. apply H. now left.
+Qed.
+
+Lemma rewriter_kind_flag c rk : rewriter_kind c = Ok rk ->
+  match ch_plots c with p0 :: _ => is_xy_plot (p_tag p0) = rk_xy rk | [] => False end.
+Proof.
+  unfold rewriter_kind. destruct (ch_plots c) as [|p0 ps]; [discriminate|].
+  destruct (negb (plot_factory_ok (p_tag p0))); [discriminate|].
+  unfold is_xy_plot.
+  destruct (N.eqb (p_tag p0) pt_bubble); [intros H; injection H as <-; reflexivity|].
+  destruct (N.eqb (p_tag p0) pt_scatter); intros H; injection H as <-; reflexivity.
+Qed.
+
+Lemma tags_within_rewrite sc sds ps : tags_within (rewrite_plots sc sds ps) ps.
+Proof. apply tags_within_frames, frames_rewrite_plots. Qed.
+
+Lemma reports_of_reflects t sers sds rk :
+  Forall2 reflects sers sds ->
+  Forall (fun sd => sd_is_xy sd = rk_xy rk /\ data_tags sd = rk_tags rk) sds ->
+  is_xy_plot t = rk_xy rk ->
+  map ser_name sers = map (fun sd => xml_norm (sd_name sd)) sds /\
+  map (ser_values_raw t) sers = map sd_values sds /\
+  (rk_xy rk = true -> map (ser_cache kid_xval) sers = map sd_xvalues sds) /\
+  (rk = RBub -> map (ser_cache kid_bub) sers = map sd_sizes sds).
+Proof.
+  intros HR HF Ht. pose proof (Forall2_Forall_r _ _ _ _ HR HF) as H2.
+  split; [|split; [|split]].
+  - eapply Forall2_map_eq; [exact HR|]. intros a b Hab. now apply reflect_name.
+  - eapply Forall2_map_eq; [exact H2|]. intros a b [Hab [Hx _]]. apply reflect_values; auto. congruence.
+  - intros Hxy. eapply Forall2_map_eq; [exact H2|]. intros a b [Hab [Hx _]]. apply reflect_xvalues; auto. congruence.
+  - intros ->. eapply Forall2_map_eq; [exact H2|]. intros a b [Hab [Hx Hd]].
+    destruct b; try discriminate. simpl. eapply reflect_sizes; eauto.
+Qed.
+
+(* ================================================================== theorems about the writers *)
+
+Lemma kept_map {X Y} ct (g : X -> Y) l : kept ct (map g l) = map g (kept ct l).
+Proof. unfold kept. destruct (is_pie ct); [now rewrite firstn_map|reflexivity]. Qed.
+
+Lemma kept_forall {X} ct (P : X -> Prop) l : Forall P l -> Forall P (kept ct l).
+Proof.
+  unfold kept. destruct (is_pie ct); auto. intros H. rewrite <- (firstn_skipn 1 l) in H.
+  apply Forall_app in H. tauto.
+Qed.
+
+Lemma one_plot_values ptag pl sers : StronglySorted (le_key s_order) sers \/ True ->
+  area_sers (mkChart false 0 [mkPlot ptag pl sers]) = sers ->
+  chart_values (mkChart false 0 [mkPlot ptag pl sers]) = map (ser_values_raw ptag) sers.
+Proof.
+  intros _ H. unfold chart_values. cbn [ch_plots map concat p_tag]. rewrite app_nil_r.
+  unfold area_sers, area_sers_of in H. cbn [ch_plots map concat] in H. rewrite app_nil_r in H. now rewrite H.
+Qed.
+
+(** What the read API reports for a chart made by a writer. *)
+Theorem write_reports ct d c : write ct d = Ok c ->
+  chart_names c = kept ct (map xml_norm (data_names d)) /\
+  chart_values c = kept ct (data_values d) /\
+  uniq (area_sers c) /\
+  match d with DCat _ _ _ => True | _ => chart_xvalues c = kept ct (data_xvalues d) end.
+Proof.
+  intros Hw. destruct (write_reflects ct d c Hw) as [rk [sds [ptag [sers [-> [Ha [Ht [Hs [HR Hu]]]]]]]]].
+  destruct (ser_datas_facts _ _ _ _ Hs) as [Hl [Hn [Hv [Hx [_ HF]]]]].
+  destruct (reports_of_reflects ptag sers (kept ct sds) rk HR (kept_forall ct _ _ HF) Ht) as [R1 [R2 [R3 _]]].
+  unfold chart_names, chart_xvalues. rewrite (one_plot_values ptag 0 sers (or_intror I) Ha), Ha.
+  split; [|split; [|split; [exact Hu|]]].
+  - rewrite R1, <- Hn, map_map, <- kept_map. reflexivity.
+  - rewrite R2, <- Hv, <- kept_map. reflexivity.
+  - destruct d as [f fmt l|l|l]; [exact I| |]; rewrite <- Hx, kept_map.
+    + destruct rk; [|apply R3; reflexivity|apply R3; reflexivity].
+      simpl in Hs. destruct l; [|discriminate]. injection Hs as <-.
+      unfold kept in *. destruct (is_pie ct); simpl in *; inversion HR; reflexivity.
+    + destruct rk; [|apply R3; reflexivity|apply R3; reflexivity].
+      simpl in Hs. destruct l; [|discriminate]. injection Hs as <-.
+      unfold kept in *. destruct (is_pie ct); simpl in *; inversion HR; reflexivity.
+Qed.
+
+(** Bubble sizes of a chart made by a bubble writer. *)
+Theorem write_bubble_sizes ct sers c : ct = 15 \/ ct = 87 -> write ct (DBub sers) = Ok c ->
+  chart_sizes c = data_sizes (DBub sers).
+Proof.
+  intros Hct Hw.
+  assert (Hc : c = mkChart false 0 [mkPlot pt_bubble 0
+                 (mapi_from 0 (fun i s => mkSer i i (bub_ser_kids (bs_name s) (bs_fmt s)
+                    (map (fun p => fst (fst p)) (bs_pts s)) (map (fun p => snd (fst p)) (bs_pts s))
+                    (map snd (bs_pts s)))) sers)]).
+  { destruct Hct as [-> | ->]; unfold write in Hw; cbn in Hw; now injection Hw as <-. }
+  subst c. unfold chart_sizes.
+  rewrite (area_one_plot pt_bubble 0 _ (mapi_sorted _ sers 0)). cbn [data_sizes].
+  pose proof (mapi_forall2 (fun s => bub_ser_kids (bs_name s) (bs_fmt s)
+                    (map (fun p => fst (fst p)) (bs_pts s)) (map (fun p => snd (fst p)) (bs_pts s))
+                    (map snd (bs_pts s)))
+               (fun s x => ser_cache kid_bub s = Some (map snd (bs_pts x))) sers) as H.
+  eapply Forall2_map_eq; [apply H|].
+  - intros i x. eapply reflect_sizes. apply bub_kids_reflect.
+  - auto.
+Qed.
+
+Lemma write_cat_counts b f fmt cx : write_cat b f fmt = Ok cx -> cx_counts cx = [leaves_f f].
+Proof.
+  unfold write_cat. destruct (forest_depth f); [|discriminate].
+  repeat match goal with |- context [if ?b then _ else _] => destruct b end;
+    intros H; injection H as <-; reflexivity.
+Qed.
+
+Lemma plot_cat_of_first p s rest cx cs n : p_sers p = s :: rest -> reflects s (SDCat cx cs) ->
+  cx_counts cx = [n] -> plot_cat p = Some cx /\ plot_cat_count p = n.
+Proof.
+  intros Hp Hr Hn. destruct (reflect_cat s cx cs Hr) as [H1 H2].
+  unfold plot_cat, plot_cat_count. rewrite Hp. split; [exact H1|].
+  cbn [map concat]. fold (proj kid_cat_counts (s_kids s)). rewrite H2, Hn. reflexivity.
+Qed.
+
+(** The categories a chart made by a writer reports. *)
+Theorem write_categories ct f fmt sers c : write ct (DCat f fmt sers) = Ok c -> sers <> [] -> f <> [] ->
+  exists p, ch_plots c = [p] /\
+  exists D, forest_depth f = Some D /\ (1 <= D)%nat /\
+    let tau := cat_text false f D in
+    plot_cat_count p = leaves_f f /\
+    plot_cat_depth p = Z.of_nat D /\
+    plot_flattened p = map (map tau) (paths_f f) /\
+    plot_cat_labels p = map (fun path => tau (last path dlabel)) (paths_f f) /\
+    plot_cat_levels p = if Nat.eqb D 1 then [] else map (map (tau' tau)) (levels f).
+Proof.
+  intros Hw Hs Hf. destruct (write_reflects _ _ _ Hw) as [rk [sds [ptag [sers' [-> [Ha [Ht [Hsd [HR Hu]]]]]]]]].
+  eexists. split; [reflexivity|].
+  destruct rk; cbn [ser_datas] in Hsd;
+    try (destruct sers; [congruence|discriminate]).
+  destruct sers as [|s0 sers0]; [congruence|].
+  destruct (write_cat false f fmt) as [cx|] eqn:Hc; [|discriminate]. cbn [bind] in Hsd. injection Hsd as <-.
+  assert (exists s rest cs, sers' = s :: rest /\ reflects s (SDCat cx cs)) as [s [rest [cs [-> Hrs]]]].
+  { unfold kept in HR. destruct (is_pie ct); cbn [map firstn] in HR; inversion HR; subst; eauto. }
+  destruct (plot_cat_of_first (mkPlot ptag 0 (s :: rest)) s rest cx cs _ eq_refl Hrs
+              (write_cat_counts _ _ _ _ Hc)) as [P1 P2].
+  destruct (write_cat_read false f fmt cx _ Hc Hf P1 P2) as [D [HD [HD1 H]]].
+  exists D. split; [exact HD|]. split; [exact HD1|]. split; [exact P2|]. exact H.
+Qed.
+
+(* ================================================================== theorems about replace_data *)
+
+Lemma Forall2_firstn {A B} (R : A -> B -> Prop) k : forall l1 l2,
+  Forall2 R l1 l2 -> Forall2 R (firstn k l1) (firstn k l2).
+Proof. induction k; intros l1 l2 H; [constructor|]. destruct H; simpl; constructor; auto. Qed.
+Lemma Forall2_skipn {A B} (R : A -> B -> Prop) k : forall l1 l2,
+  Forall2 R l1 l2 -> Forall2 R (skipn k l1) (skipn k l2).
+Proof. induction k; intros l1 l2 H; [exact H|]. destruct H; simpl; [constructor|auto]. Qed.
+Lemma Forall2_length {A B} (R : A -> B -> Prop) l1 l2 : Forall2 R l1 l2 -> length l1 = length l2.
+Proof. induction 1; simpl; auto. Qed.
+
+Definition keeps (tags : list N) (s' s : ser) : Prop :=
+  s_idx s' = s_idx s /\ s_order s' = s_order s /\
+  other_kids tags (s_kids s') = other_kids tags (s_kids s).
+
+Lemma keeps_uniq tags l' l : Forall2 (keeps tags) l' l -> uniq l -> uniq l'.
+Proof.
+  intros H [U1 U2].
+  assert (map s_idx l' = map s_idx l) as E1 by (eapply Forall2_map_eq; [exact H|]; intros a b K; apply K).
+  assert (map s_order l' = map s_order l) as E2 by (eapply Forall2_map_eq; [exact H|]; intros a b K; apply K).
+  unfold uniq. now rewrite E1, E2.
+Qed.
+
+(** replace_data keeps c:idx and c:order values unique. *)
+Theorem replace_uniq sc d c c' : replace sc d c = Ok c' -> uniq (area_sers c) -> uniq (area_sers c').
+Proof.
+  intros Hr Hu. destruct (replace_spec _ _ _ _ Hr) as [rk [ps [sds [Hk [Ha [Hs [Hl [_ [_ [_ Harea]]]]]]]]]].
+  destruct (adjust_spec _ _ _ Ha) as [_ [Hu' _]].
+  destruct (ser_datas_facts _ _ _ _ Hs) as [_ [_ [_ [_ [_ HF]]]]].
+  rewrite Harea. eapply keeps_uniq; [|apply Hu', Hu].
+  apply (zip_rw_keeps sc (rk_tags rk)). eapply Forall_impl; [|exact HF]. intros sd [_ H]. exact H.
+Qed.
+
+Definition replace_all (sc : succs) (ops : list chart_data) (c : chart) : res chart :=
+  fold_left (fun r d => bind r (replace sc d)) ops (Ok c).
+
+Lemma fold_bind_err sc ops e : fold_left (fun r d => bind r (replace sc d)) ops (Err e) = Err e.
+Proof. induction ops; simpl; auto. Qed.
+
+Theorem history_uniq sc ops : forall c c', uniq (area_sers c) -> replace_all sc ops c = Ok c' -> uniq (area_sers c').
+Proof.
+  unfold replace_all. induction ops as [|d ops IH]; intros c c' Hu H; simpl in H.
+  - now injection H as <-.
+  - destruct (replace sc d c) as [c1|e] eqn:E.
+    + eapply IH; [|exact H]. eapply replace_uniq; eauto.
+    + rewrite fold_bind_err in H. discriminate.
+Qed.
+
+Lemma homog_within ps' ps flag : tags_within ps' ps ->
+  (forall p, In p ps -> is_xy_plot (p_tag p) = flag) -> forall p', In p' ps' -> is_xy_plot (p_tag p') = flag.
+Proof.
+  intros Hw H p' Hp'. destruct (Hw p' Hp') as [p [Hp Hf]]. unfold frame in Hf.
+  injection Hf as Ht _. rewrite Ht. auto.
+Qed.
+
+Lemma tags_within_trans a b c : tags_within a b -> tags_within b c -> tags_within a c.
+Proof.
+  intros H1 H2 p Hp. destruct (H1 p Hp) as [q [Hq E1]]. destruct (H2 q Hq) as [r [Hr E2]].
+  exists r. split; auto. congruence.
+Qed.
+
+(** After replace_data the read API reports the names and values of the new data. *)
+Theorem replace_reports sc d c c' : replace sc d c = Ok c' -> homog (ch_plots c) ->
+  length (area_sers c') = data_len d /\
+  chart_names c' = map xml_norm (data_names d) /\
+  chart_values c' = data_values d /\
+  (forall p0 r, ch_plots c = p0 :: r -> is_xy_plot (p_tag p0) = true -> chart_xvalues c' = data_xvalues d) /\
+  (forall p0 r, ch_plots c = p0 :: r -> p_tag p0 = pt_bubble -> chart_sizes c' = data_sizes d).
+Proof.
+  intros Hr Hh. destruct (replace_spec _ _ _ _ Hr) as [rk [ps [sds [Hk [Ha [Hs [Hl [_ [_ [Hps Harea]]]]]]]]]].
+  destruct (adjust_spec _ _ _ Ha) as [Hn [_ [Hw _]]].
+  destruct (ser_datas_facts _ _ _ _ Hs) as [Hlen [Hnm [Hv [Hx [Hz HF]]]]].
+  pose proof (rewriter_kind_flag _ _ Hk) as Hflag.
+  destruct (ch_plots c) as [|p0 r] eqn:Ec; [contradiction|].
+  assert (Hall : forall p', In p' (ch_plots c') -> is_xy_plot (p_tag p') = is_xy_plot (p_tag p0)).
+  { rewrite Hps. eapply homog_within.
+    - eapply tags_within_trans; [apply tags_within_rewrite|exact Hw].
+    - intros p Hp. apply (Hh p Hp). }
+  pose proof (zip_rw_reflects sc (area_sers_of ps) sds Hl) as HR. rewrite <- Harea in HR.
+  destruct (reports_of_reflects (p_tag p0) _ _ rk HR HF Hflag) as [R1 [R2 [R3 R4]]].
+  split; [rewrite (Forall2_length _ _ _ HR); exact Hlen|].
+  split; [unfold chart_names; rewrite R1, <- Hnm, map_map; reflexivity|].
+  split.
+  { unfold chart_values. rewrite (chart_values_flag (ch_plots c') (p_tag p0) Hall).
+    fold (area_sers c'). now rewrite R2. }
+  split.
+  - intros p1 r1 E Hxy. injection E as <- <-. unfold chart_xvalues. rewrite R3, Hx; congruence.
+  - intros p1 r1 E Hb. injection E as <- <-.
+    assert (rk = RBub) as ->.
+    { unfold rewriter_kind in Hk. rewrite Ec, Hb in Hk. cbn in Hk. now injection Hk as <-. }
+    unfold chart_sizes. rewrite R4, Hz; auto.
+Qed.
+
+(** After replace_data with category data every plot that has series reports the new
+    categories (dates in the date system of the chart). *)
+Theorem replace_categories sc f fmt sers c c' :
+  replace sc (DCat f fmt sers) c = Ok c' -> sers <> [] -> f <> [] ->
+  forall p, In p (ch_plots c') -> p_sers p <> [] ->
+  exists D, forest_depth f = Some D /\ (1 <= D)%nat /\
+    let tau := cat_text (ch_1904 c) f D in
+    plot_cat_count p = leaves_f f /\
+    plot_cat_depth p = Z.of_nat D /\
+    plot_flattened p = map (map tau) (paths_f f) /\
+    plot_cat_labels p = map (fun path => tau (last path dlabel)) (paths_f f) /\
+    plot_cat_levels p = if Nat.eqb D 1 then [] else map (map (tau' tau)) (levels f).
+Proof.
+  intros Hr Hs Hf p Hp Hne.
+  destruct (replace_spec _ _ _ _ Hr) as [rk [ps [sds [Hk [Ha [Hsd [Hl [_ [_ [Hps Harea]]]]]]]]]].
+  destruct rk; cbn [ser_datas] in Hsd; try (destruct sers; [congruence|discriminate]).
+  destruct sers as [|s0 sers0]; [congruence|].
+  destruct (write_cat (ch_1904 c) f fmt) as [cx|] eqn:Hc; [|discriminate]. cbn [bind] in Hsd. injection Hsd as <-.
+  pose proof (zip_rw_reflects sc (area_sers_of ps) _ Hl) as HR. rewrite <- Harea in HR.
+  destruct (p_sers p) as [|s rest] eqn:Eps; [congruence|].
+  assert (In s (area_sers c')) as Hin.
+  { unfold area_sers, area_sers_of. apply in_concat. exists (plot_sers p). split; [now apply in_map|].
+    unfold plot_sers. apply sort_by_in. rewrite Eps. now left. }
+  destruct (Forall2_in_l _ _ _ _ HR Hin) as [sd [Hsd Hrs]].
+  change (SDCat cx s0 :: map (SDCat cx) sers0) with (map (SDCat cx) (s0 :: sers0)) in Hsd.
+  apply in_map_iff in Hsd. destruct Hsd as [cs [<- _]].
+  destruct (plot_cat_of_first p s rest cx cs _ Eps Hrs (write_cat_counts _ _ _ _ Hc)) as [P1 P2].
+  destruct (write_cat_read _ f fmt cx p Hc Hf P1 P2) as [D [HD [HD1 H]]].
+  exists D. split; [exact HD|]. split; [exact HD1|]. split; [exact P2|]. exact H.
+Qed.
+
+(* ---- which plots are left: those that keep one of the first n series ---- *)
+
+Fixpoint surviving (n : nat) (ps : list plot) : list (N * N) :=
+  match ps with
+  | [] => []
+  | p :: ps' =>
+      let m := length (p_sers p) in
+      (if Nat.ltb 0 (Nat.min n m) then [frame p] else []) ++ surviving (n - m) ps'
+  end.
+
+Fixpoint keep_counts (n : nat) (lens : list nat) : list nat :=
+  match lens with [] => [] | m :: r => Nat.min n m :: keep_counts (n - m) r end.
+Fixpoint dec_last (l : list nat) : list nat :=
+  match l with
+  | [] => []
+  | m :: r => if existsb (fun x => negb (Nat.eqb x 0)) r then m :: dec_last r else pred m :: r
+  end.
+Definition lens (ps : list plot) : list nat := map (fun p => length (p_sers p)) ps.
+
+Lemma has_sers_lens ps : has_sers ps = existsb (fun x => negb (Nat.eqb x 0)) (lens ps).
+Proof.
+  induction ps as [|p ps IH]; [reflexivity|]. simpl. rewrite IH. destruct (p_sers p); reflexivity.
+Qed.
+
+Lemma remove_nth_length {A} (l : list A) : forall n, (n < length l)%nat -> length (remove_nth n l) = pred (length l).
+Proof.
+  induction l as [|x l IH]; intros n Hn; simpl in Hn; [lia|]. destruct n; simpl; [reflexivity|].
+  rewrite IH by lia. destruct l; simpl in *; lia.
+Qed.
+
+Lemma lens_remove_last ps : lens (remove_last_ser ps) = dec_last (lens ps).
+Proof.
+  induction ps as [|p ps IH]; [reflexivity|]. cbn [remove_last_ser lens map dec_last].
+  fold (lens ps). rewrite <- has_sers_lens. destruct (has_sers ps).
+  - cbn [map]. f_equal. exact IH.
+  - cbn [map]. f_equal. unfold drop_last_ser.
+    destruct (rev (order_positions (p_sers p))) as [|pos r] eqn:E.
+    + assert (order_positions (p_sers p) = []) as E0.
+      { rewrite <- (rev_involutive (order_positions _)), E. reflexivity. }
+      apply (f_equal (@length nat)) in E0. unfold order_positions in E0.
+      rewrite map_length, sort_by_length in E0. unfold decorate in E0.
+      rewrite combine_length, seq_length, Nat.min_id in E0. simpl in E0. now rewrite E0.
+    + cbn [p_sers set_sers]. apply remove_nth_length. eapply last_pos_lt; eauto.
+Qed.
+
+Definition sum_nat (l : list nat) : nat := fold_right Nat.add 0%nat l.
+
+Lemma keep_counts_zero l : keep_counts 0 l = map (fun _ => 0%nat) l.
+Proof. induction l as [|m r IH]; simpl; auto. now rewrite IH. Qed.
+Lemma exists_nonzero_zero (l : list nat) : existsb (fun x => negb (Nat.eqb x 0)) (map (fun _ => 0%nat) l) = false.
+Proof. induction l; simpl; auto. Qed.
+
+Lemma keep_counts_all l : forall n, (sum_nat l <= n)%nat -> keep_counts n l = l.
+Proof.
+  induction l as [|m r IH]; intros n Hn; simpl in *; auto. rewrite Nat.min_r by lia. f_equal. apply IH. lia.
+Qed.
+
+Lemma exists_nonzero_keep l : forall n, (1 <= n)%nat -> (n <= sum_nat l)%nat ->
+  existsb (fun x => negb (Nat.eqb x 0)) (keep_counts n l) = true.
+Proof.
+  induction l as [|m r IH]; intros n H1 H2; simpl in *; [lia|].
+  destruct (Nat.min n m) eqn:E; simpl; auto.
+  apply IH; lia.
+Qed.
+
+Lemma dec_last_keep l : forall n, (S n <= sum_nat l)%nat -> dec_last (keep_counts (S n) l) = keep_counts n l.
+Proof.
+  induction l as [|m r IH]; intros n Hn; [simpl in Hn; lia|].
+  cbn [keep_counts dec_last]. cbn [sum_nat fold_right] in Hn. fold (sum_nat r) in Hn.
+  destruct (Nat.le_gt_cases (S n) m) as [Hle|Hgt].
+  - replace (S n - m)%nat with 0%nat by lia. replace (n - m)%nat with 0%nat by lia.
+    rewrite keep_counts_zero, exists_nonzero_zero. rewrite !Nat.min_l by lia. reflexivity.
+  - replace (S n - m)%nat with (S (n - m)) by lia.
+    rewrite exists_nonzero_keep by lia. rewrite IH by lia. f_equal. lia.
+Qed.
+
+Lemma lens_iter_remove k : forall ps, (k <= sum_nat (lens ps))%nat ->
+  lens (Nat.iter k remove_last_ser ps) = keep_counts (sum_nat (lens ps) - k) (lens ps).
+Proof.
+  induction k as [|k IH]; intros ps Hk.
+  - simpl. rewrite Nat.sub_0_r. symmetry. apply keep_counts_all. lia.
+  - change (Nat.iter (S k) remove_last_ser ps) with (remove_last_ser (Nat.iter k remove_last_ser ps)).
+    rewrite lens_remove_last, IH by lia.
+    replace (sum_nat (lens ps) - k)%nat with (S (sum_nat (lens ps) - S k)) by lia.
+    apply dec_last_keep. lia.
+Qed.
+
+Lemma surviving_filter ps : forall Q n, map frame Q = map frame ps -> lens Q = keep_counts n (lens ps) ->
+  map frame (filter (fun p => match p_sers p with [] => false | _ => true end) Q) = surviving n ps.
+Proof.
+  induction ps as [|p ps IH]; intros [|q Q] n Hf Hl; simpl in *; try discriminate; auto.
+  assert (Hq : frame q = frame p) by congruence.
+  assert (HQ : map frame Q = map frame ps) by congruence.
+  injection Hl as Lq LQ.
+  rewrite <- (IH Q (n - length (p_sers p))%nat HQ LQ).
+  destruct (p_sers q) eqn:Eq; simpl in Lq.
+  - rewrite <- Lq. reflexivity.
+  - rewrite <- Lq. simpl. now rewrite Hq.
+Qed.
+
+Lemma sum_lens_area ps : sum_nat (lens ps) = length (area_sers_of ps).
+Proof.
+  induction ps as [|p ps IH]; [reflexivity|]. simpl.
+  change (area_sers_of (p :: ps)) with (plot_sers p ++ area_sers_of ps).
+  rewrite app_length, length_plot_sers. now rewrite IH.
+Qed.
+
+Theorem frames_trim ps n : (n <= length (area_sers_of ps))%nat ->
+  map frame (trim (length (area_sers_of ps) - n) ps) = surviving n ps.
+Proof.
+  intros Hn. unfold trim. apply surviving_filter.
+  - apply frames_iter_remove.
+  - rewrite lens_iter_remove by (rewrite sum_lens_area; lia).
+    rewrite sum_lens_area. f_equal. lia.
+Qed.
+
+(** replace_data changes nothing but the data children of the series: the date system
+    and everything outside the xChart elements stay; a series that survives keeps idx,
+    order and every other child; an added series has the other children of an existing
+    one; the xChart elements (series aside) stay, except that when series are removed the
+    plots left are exactly those that keep one of the first n series. *)
+Theorem replace_keeps sc d c c' : replace sc d c = Ok c' ->
+  exists rk, rewriter_kind c = Ok rk /\
+  let old := area_sers c in
+  let new := area_sers c' in
+  let n := data_len d in
+  ch_1904 c' = ch_1904 c /\ ch_rest c' = ch_rest c /\ length new = n /\
+  Forall2 (keeps (rk_tags rk)) (firstn (length old) new) (firstn n old) /\
+  (forall s, In s (skipn (length old) new) ->
+     exists src, In src old /\ other_kids (rk_tags rk) (s_kids s) = other_kids (rk_tags rk) (s_kids src)) /\
+  map frame (ch_plots c') = (if Nat.ltb n (length old) then surviving n (ch_plots c) else map frame (ch_plots c)).
+Proof.
+  intros Hr. destruct (replace_spec _ _ _ _ Hr) as [rk [ps [sds [Hk [Ha [Hs [Hl [H19 [Hrest [Hps Harea]]]]]]]]]].
+  exists rk. split; [exact Hk|]. cbv zeta.
+  destruct (adjust_spec _ _ _ Ha) as [Hn [_ [_ Hcase]]].
+  destruct (ser_datas_facts _ _ _ _ Hs) as [Hlen [_ [_ [_ [_ HF]]]]].
+  assert (HK : Forall2 (keeps (rk_tags rk)) (area_sers c') (area_sers_of ps)).
+  { rewrite Harea. apply zip_rw_keeps. eapply Forall_impl; [|exact HF]. intros sd [_ H]. exact H. }
+  assert (Hnew : length (area_sers c') = data_len d).
+  { rewrite (Forall2_length _ _ _ HK). exact Hn. }
+  split; [exact H19|]. split; [exact Hrest|]. split; [exact Hnew|].
+  rewrite Hps, frames_rewrite_plots.
+  fold (area_sers c) in Hcase.
+  destruct Hcase as [[Hle [Hfr [news [Harea2 Hnews]]]]|[Hlt [Htrim Harea2]]].
+  - destruct (Nat.ltb_spec (data_len d) (length (area_sers c))) as [|_]; [lia|].
+    split; [|split; [|exact Hfr]].
+    + rewrite (firstn_all2 (n := data_len d)) by lia.
+      pose proof (Forall2_firstn _ (length (area_sers c)) _ _ HK) as H. rewrite Harea2 in H.
+      rewrite firstn_app, firstn_all, Nat.sub_diag in H. simpl in H. now rewrite app_nil_r in H.
+    + intros s Hsk.
+      pose proof (Forall2_skipn _ (length (area_sers c)) _ _ HK) as H. rewrite Harea2 in H.
+      rewrite skipn_app, skipn_all, Nat.sub_diag in H. simpl in H.
+      destruct (Forall2_in_l _ _ _ _ H Hsk) as [s0 [Hs0 [_ [_ Ko]]]].
+      destruct (Hnews s0 Hs0) as [src [Hsrc Hkids]]. exists src. split; [exact Hsrc|].
+      now rewrite Ko, Hkids.
+  - destruct (Nat.ltb_spec (data_len d) (length (area_sers c))) as [_|]; [|lia].
+    split; [|split].
+    + rewrite firstn_all2 by lia. now rewrite <- Harea2.
+    + intros s Hsk. rewrite skipn_all2 in Hsk by lia. destruct Hsk.
+    + rewrite Htrim. apply frames_trim. unfold area_sers in Hlt. lia.
+Qed.
+
+(* ================================================================== label texts *)
+
+Lemma no_cr_app a b : no_cr (a ++ b) = no_cr a && no_cr b.
+Proof. induction a as [|c a IH]; simpl; auto. rewrite IH. now rewrite andb_assoc. Qed.
+
+Lemma no_cr_digits fuel : forall n acc, no_cr acc = true -> no_cr (dec_digits_fuel fuel n acc) = true.
+Proof.
+  induction fuel as [|fuel IH]; intros n acc Hacc; cbn [dec_digits_fuel]; auto.
+  assert (Hd : N.eqb (48 + n mod 10) 13 = false).
+  { apply N.eqb_neq. intros H. pose proof (N.le_add_r 48 (n mod 10)) as L. rewrite H in L.
+    apply L. reflexivity. }
+  assert (Hc : no_cr ((48 + n mod 10)%N :: acc) = true).
+  { cbn [no_cr]. now rewrite Hd, Hacc. }
+  destruct (n <? 10)%N; [exact Hc|]. apply IH. exact Hc.
+Qed.
+Lemma no_cr_show_Z z : no_cr (show_Z z) = true.
+Proof.
+  destruct z; simpl; auto; unfold dec_of_N; try apply no_cr_digits; auto.
+Qed.
+Lemma digits_nonempty fuel : forall n acc, acc <> [] \/ fuel <> O -> dec_digits_fuel fuel n acc <> [].
+Proof.
+  induction fuel as [|fuel IH]; intros n acc H; simpl.
+  - destruct H; congruence.
+  - destruct (n <? 10)%N; [discriminate|]. apply IH. left. discriminate.
+Qed.
+Lemma show_Z_nonempty z : show_Z z <> [].
+Proof.
+  destruct z; simpl; try discriminate. unfold dec_of_N. apply digits_nonempty. right. discriminate.
+Qed.
+
+Lemma seen_text_nonempty v : v <> [] -> seen_text v = v.
+Proof. destruct v; [congruence|reflexivity]. Qed.
+
+(** A string label without carriage return that is not empty is reported verbatim. *)
+Lemma cat_text_str b f D s : cat_numeric f D = false -> no_cr s = true -> s <> [] ->
+  cat_text b f D (LStr s) = s.
+Proof.
+  intros Hn Hc Hs. unfold cat_text. rewrite Hn. cbn [label_str].
+  rewrite xml_norm_no_cr by exact Hc. now apply seen_text_nonempty.
+Qed.
+(** A number label is reported as the text Python gives for the number. *)
+Lemma cat_text_num b f t : cat_numeric f 1 = true -> no_cr t = true -> t <> [] ->
+  cat_text b f 1 (LNum t) = t.
+Proof.
+  intros Hn Hc Hs. unfold cat_text. rewrite Hn. cbn [label_numstr].
+  rewrite xml_norm_no_cr by exact Hc. now apply seen_text_nonempty.
+Qed.
+(** A date label is reported as its serial number with one decimal. *)
+Lemma cat_text_date b f y m d : cat_numeric f 1 = true ->
+  cat_text b f 1 (LDate y m d) = show_Z (excel_serial b y m d) ++ s_dot0.
+Proof.
+  intros Hn. unfold cat_text. rewrite Hn. cbn [label_numstr].
+  rewrite xml_norm_no_cr by (rewrite no_cr_app, no_cr_show_Z; reflexivity).
+  apply seen_text_nonempty. intros H. apply app_eq_nil in H. destruct H as [H _].
+  now apply show_Z_nonempty in H.
+Qed.
+
+(** The serial date number: days since 1899-12-31, plus one after 1900-02-28 (day 59), so
+    that 60 (the 29th of February 1900 of Excel) is never produced and order is kept; in
+    the 1904 system days since 1904-01-01. *)
+Lemma excel_serial_spec y m d :
+  let n := ordinal (y, m, d) - ordinal (1899, 12, 31) in
+  excel_serial false y m d = (if n <=? 59 then n else n + 1) /\
+  excel_serial true y m d = ordinal (y, m, d) - ordinal (1904, 1, 1) /\
+  excel_serial false y m d <> 60.
+Proof.
+  cbv zeta. unfold excel_serial.
+  destruct (Z.ltb_spec 59 (ordinal (y, m, d) - ordinal (1899, 12, 31)));
+    destruct (Z.leb_spec (ordinal (y, m, d) - ordinal (1899, 12, 31)) 59); repeat split; lia.
+Qed.
+Lemma excel_serial_mono b y1 m1 d1 y2 m2 d2 : ordinal (y1, m1, d1) < ordinal (y2, m2, d2) ->
+  excel_serial b y1 m1 d1 < excel_serial b y2 m2 d2.
+Proof.
+  unfold excel_serial. destruct b; [lia|].
+  destruct (Z.ltb_spec 59 (ordinal (y1, m1, d1) - ordinal (1899, 12, 31)));
+    destruct (Z.ltb_spec 59 (ordinal (y2, m2, d2) - ordinal (1899, 12, 31))); lia.
+Qed.
+
+Lemma map_norm_no_cr l : Forall (fun s => no_cr s = true) l -> map xml_norm l = l.
+Proof. induction 1; simpl; auto. now rewrite xml_norm_no_cr, IHForall. Qed.
+
+(* ================================================================== witnesses and examples *)
+
+Definition w_ser (name : str) (vals : list (option str)) : cat_series := mkCS name s_general vals.
+Definition w_cats : list cat_tree := [CatNode (LStr [97%N]) []; CatNode (LStr [98%N]) []].
+Definition w_two : chart_data :=
+  DCat w_cats None [w_ser [115%N] [Some [49%N]; Some [50%N]]; w_ser [116%N] [Some [51%N]; None]].
+Definition w_one : chart_data := DCat w_cats None [w_ser [115%N] [Some [49%N]; None]].
+Definition w_none : chart_data := DCat w_cats None [].
+
+(** A pie chart made from two series reports one. *)
+Lemma pie_refuted : exists ct d c, write ct d = Ok c /\
+  chart_values c <> data_values d /\ chart_names c <> map xml_norm (data_names d).
+Proof.
+  exists 5, w_two. eexists. split; [vm_compute; reflexivity|]. split; vm_compute; discriminate.
+Qed.
+
+(** A carriage return in a series name does not come back. *)
+Lemma cr_refuted : exists ct d c, write ct d = Ok c /\ chart_names c <> data_names d.
+Proof.
+  exists 57, (DCat w_cats None [w_ser [110; 13; 109]%N [Some [49%N]]]). eexists.
+  split; [vm_compute; reflexivity|]. vm_compute. discriminate.
+Qed.
+
+(** A category whose label is the empty string is reported as the word None. *)
+Lemma empty_label_refuted : exists ct f sers c p, write ct (DCat f None sers) = Ok c /\ ch_plots c = [p] /\
+  plot_cat_labels p <> map (fun t => label_str (tree_label t)) f /\ plot_cat_labels p = [s_None; [98%N]].
+Proof.
+  exists 57, [CatNode (LStr []) []; CatNode (LStr [98%N]) []], [w_ser [115%N] [Some [49%N]]].
+  eexists. eexists. split; [vm_compute; reflexivity|]. split; [reflexivity|].
+  split; [vm_compute; discriminate|vm_compute; reflexivity].
+Qed.
+
+(** replace_data fails on a chart made without series, and on a chart all of whose series
+    (hence plots) were removed by a replace_data without series. *)
+Lemma replace_no_series_refuted :
+  (exists ct d0 d c0, write ct d0 = Ok c0 /\ data_len d = 1%nat /\ replace std_succs d c0 = Err OtherErr) /\
+  (exists ct d0 d c0 c1, write ct d0 = Ok c0 /\ data_len d = 1%nat /\ replace std_succs w_none c0 = Ok c1 /\
+                         ch_plots c1 = [] /\ replace std_succs d c1 = Err IndexErr).
+Proof.
+  split.
+  - exists 57, w_none, w_one. eexists. split; [vm_compute; reflexivity|]. split; reflexivity.
+  - exists 57, w_two, w_one. eexists. eexists. split; [vm_compute; reflexivity|].
+    split; [reflexivity|]. split; [vm_compute; reflexivity|]. split; reflexivity.
+Qed.
+
+(** Date categories with a number format containing a double quote cannot be written by
+    the area, bar and line writers. *)
+Lemma date_quote_refuted : exists ct d, data_len d = 1%nat /\ write ct d = Err OtherErr.
+Proof.
+  exists 57, (DCat [CatNode (LDate 2020 1 1) []] (Some [34; 36; 34; 48]%N) [w_ser [115%N] [Some [49%N]]]).
+  split; reflexivity.
+Qed.
+
+(** flattened_labels on levels python-pptx did not write: a leaf that lies before the
+    first category of the parent level is given that category as its parent. *)
+Lemma foreign_levels_refuted : exists leaf parent : Z * str,
+  fst leaf < fst parent /\ flattened_of_levels [[leaf]; [parent]] = [[snd parent; snd leaf]].
+Proof. exists (0, [97%N]), (1, [80%N]). split; [simpl; lia|reflexivity]. Qed.
+
+(* ---- non-vacuity ---- *)
+Definition ex_forest : list cat_tree :=
+  [CatNode (LStr [65%N]) [CatNode (LStr [97; 49]%N) [CatNode (LStr [120%N]) []; CatNode (LStr [121%N]) []];
+                          CatNode (LStr [97; 50]%N) [CatNode (LStr [122%N]) []]];
+   CatNode (LStr [66%N]) [CatNode (LStr [98; 49]%N) [CatNode (LStr [119%N]) []]]].
+Definition ex_multi : chart_data := DCat ex_forest None [w_ser [115%N] [Some [49%N]; None; Some [51%N]; Some [52%N]]].
+
+Example ex_write_multi : exists c p, write 4 ex_multi = Ok c /\ ch_plots c = [p] /\
+  forest_depth ex_forest = Some 3%nat /\
+  plot_flattened p = [[[65]; [97; 49]; [120]]; [[65]; [97; 49]; [121]]; [[65]; [97; 50]; [122]]; [[66]; [98; 49]; [119]]]%N /\
+  map (map fst) (plot_cat_levels p) = [[0; 1; 2; 3]; [0; 2; 3]; [0; 3]] /\
+  chart_values c = [[Some [49%N]; None; Some [51%N]; Some [52%N]]].
+Proof. eexists. eexists. split; [vm_compute; reflexivity|]. repeat split. Qed.
+
+Definition ex_xy : chart_data := DXy [mkXS [120%N] s_general [(Some [49%N], Some [50%N]); (None, Some [51%N])]].
+Example ex_write_xy : exists c, write 74 ex_xy = Ok c /\ chart_values c = [[Some [50%N]; Some [51%N]]] /\
+  chart_xvalues c = [Some [Some [49%N]; None]].
+Proof. eexists. split; [vm_compute; reflexivity|]. split; reflexivity. Qed.
+
+(** A history: three series are added to one, then two removed, then everything replaced
+    by multi-level data; homogeneity holds for charts made by the writers. *)
+Example ex_history : exists c0 c, write 57 w_one = Ok c0 /\ homog (ch_plots c0) /\
+  replace_all std_succs [DCat w_cats None [w_ser [97%N] []; w_ser [98%N] [None]; w_ser [99%N] []; w_ser [100%N] []];
+                         w_two; ex_multi] c0 = Ok c /\
+  map s_idx (area_sers c) = [0] /\ chart_names c = [[115%N]] /\
+  chart_values c = [[Some [49%N]; None; Some [51%N]; Some [52%N]]].
+Proof.
+  eexists. eexists. split; [vm_compute; reflexivity|]. split.
+  - intros p [<-|[]]. reflexivity.
+  - split; [vm_compute; reflexivity|]. repeat split.
+Qed.
+
+Lemma homog_written ct d c : write ct d = Ok c -> homog (ch_plots c).
+Proof.
+  intros Hw. destruct (write_reflects _ _ _ Hw) as [rk [sds [ptag [sers [-> _]]]]].
+  intros p [<-|[]]. reflexivity.
+Qed.
+
+(** Names without carriage return are reported verbatim. *)
+Theorem write_names_verbatim ct d c : write ct d = Ok c ->
+  Forall (fun s => no_cr s = true) (data_names d) -> chart_names c = kept ct (data_names d).
+Proof.
+  intros Hw Hn. destruct (write_reports ct d c Hw) as [H _]. now rewrite H, map_norm_no_cr.
+Qed.
+Theorem replace_names_verbatim sc d c c' : replace sc d c = Ok c' -> homog (ch_plots c) ->
+  Forall (fun s => no_cr s = true) (data_names d) -> chart_names c' = data_names d.
+Proof.
+  intros Hr Hh Hn. destruct (replace_reports sc d c c' Hr Hh) as [_ [H _]]. now rewrite H, map_norm_no_cr.
 Qed.
